@@ -2,6 +2,7 @@ import LlgoVerif.Util
 import LlgoVerif.Model.Cache
 /-! Line-protocol driver for C13 (stateful: the model's cache lives across lines).
 
+    `cfg <contentHash 0|1> <ccflagsEnv 0|1>` → `ok`   selects the variant of the fingerprint code (default: `Cfg.fixed`)
     `use <opt> <ccrest>`                 → `ok <CCFLAGS list>`                    (crosscompile export)
     `key G=… P=… P=…`                    → `ok <hexid>!<canonical manifest>!<hash of the full fingerprint> …`
     `rel G=… P=… P=…`                    → `ok <hexid>!<hash of the relevant inputs> …`
@@ -96,7 +97,8 @@ def hb' (c : Bytes) : String := "#" ++ hexB c
 
 def rDigests (l : List (FileDigest String)) : String :=
   if l.isEmpty then "." else ",".intercalate (l.map fun d =>
-    hexS d.path ++ "/" ++ toString d.size ++ "/" ++ toString d.mtime ++ "/" ++ (d.overlayHash.getD "~"))
+    hexS d.path ++ "/" ++ toString d.size ++ "/" ++ toString d.mtime ++ "/" ++ (d.sha256.getD "~") ++ "/"
+      ++ (d.overlayHash.getD "~"))
 
 def rMap (m : List (String × String)) : String :=
   if m.isEmpty then "." else ",".intercalate (m.map fun kv => hexS kv.1 ++ ":" ++ hexS kv.2)
@@ -126,10 +128,13 @@ def canon (m : Manifest String) : String :=
 
 def relHash (r : Rel) : String := toString (hash (toString (repr r)))
 
-abbrev St := CacheMap String Rel
+structure St where
+  cfg : Cfg := Cfg.fixed
+  cache : CacheMap String Rel := []
 
 def handle (st : St) (line : String) : St × String :=
   match fields line with
+  | ["cfg", a, b] => ({ st with cfg := { contentHash := a == "1", ccflagsEnv := b == "1" } }, "ok")
   | ["use", opt, rest] =>
     match (opt.toNat?).bind optOf, unlist rest with
     | some o, some r => (st, "ok " ++ hexList (exportCCFlags { opt := o, ccflagsRest := r }))
@@ -137,7 +142,7 @@ def handle (st : St) (line : String) : St × String :=
   | "key" :: toks =>
     match parseProg toks with
     | some (g, ts) => (st, "ok " ++ " ".intercalate (ts.map fun t =>
-        let m := key hb' fp' g t
+        let m := key st.cfg hb' fp' g t
         hexS t.data.id ++ "!" ++ canon m ++ "!" ++ fp' m))
     | none => (st, "bad-op")
   | "rel" :: toks =>
@@ -149,16 +154,16 @@ def handle (st : St) (line : String) : St × String :=
     | some (g, ts) =>
       let o : BuildOpts := { force := force = "1", cacheOn := cacheOn = "1" }
       -- the model's buildProg, one package at a time so that hit/miss and fresh/stale can be reported
-      let r := ts.foldl (fun (acc : St × List String) t =>
-        let k := fp' (key hb' fp' g t)
+      let r := ts.foldl (fun (acc : CacheMap String Rel × List String) t =>
+        let k := fp' (key st.cfg hb' fp' g t)
         let hit := o.cacheOn && !o.force && (lookup acc.1 k).isSome
-        let b := buildPkg hb' fp' (fun r => r) o g acc.1 t
+        let b := buildPkg st.cfg hb' fp' (fun r => r) o g acc.1 t
         let fresh := relHash b.2 == relHash (relevant g t)
         (b.1, acc.2 ++ [hexS t.data.id ++ ":" ++ (if hit then "hit" else "miss") ++ ":" ++ (if fresh then "fresh" else "stale")]))
-        (st, [])
-      (r.1, "ok " ++ " ".intercalate r.2)
+        (st.cache, [])
+      ({ st with cache := r.1 }, "ok " ++ " ".intercalate r.2)
     | none => (st, "bad-op")
-  | ["clean"] => (([] : St), "ok")
+  | ["clean"] => ({ st with cache := [] }, "ok")
   | _ => (st, "bad-op")
 
-def main : IO Unit := lineLoopSt ([] : St) handle
+def main : IO Unit := lineLoopSt ({} : St) handle
